@@ -1001,6 +1001,24 @@ func checkC15(P *Program, r *Result, tier string) {
 			detail, pos = bad[0].Detail, bad[0].Pos
 		}
 		r.add("CALLERS", shortName(fn), "paths", fmt.Sprintf("all %d write calls take an un-capped b[off:] at the running cursor and the cursor advances by their result (%d pairs)", calls, pairs), pos, len(bad) == 0 && calls >= 3, detail)
+		// the copying entry point is the same walk: same branch conditions, same amount written on each
+		if cp := P.Method(relBase, typ, "FastWrite"); cp != nil {
+			a, b := lengthPaths(P, A, cp, 0), lengthPaths(P, A, fn, 0)
+			ok := len(a) > 0 && len(a) == len(b)
+			d := ""
+			if !ok {
+				d = fmt.Sprintf("%d path classes in FastWrite, %d in FastWriteNocopy", len(a), len(b))
+			}
+			for k, va := range a {
+				vb, has := b[k]
+				if !has {
+					ok, d = false, "path class "+k+" only exists in FastWrite"
+				} else if !va.equal(vb) {
+					ok, d = false, "on path class "+k+": FastWrite advances by "+A.linString(va)+" but FastWriteNocopy (no writer attached) by "+A.linString(vb)
+				}
+			}
+			r.add("CALLERS", typ, "siblings", "FastWrite and FastWriteNocopy without a direct writer take the same branches and write the same amount on each", P.pos(cp.Pos()), ok, d)
+		}
 	}
 	// LEN
 	for _, pair := range [][2]string{{"StringLengthNocopy", "StringLength"}, {"BinaryLengthNocopy", "BinaryLength"}} {
